@@ -126,6 +126,14 @@ type FnInfo struct {
 	allocEsc map[*ssa.Alloc]bool // captured by closure or address escapes to a call
 	instrIdx map[ssa.Instruction]int
 	facts    map[*ssa.BasicBlock][]Atom
+	fieldLoads []fieldLoad
+	allFieldLoads []fieldLoad
+}
+
+type fieldLoad struct {
+	load *ssa.UnOp
+	addr *ssa.FieldAddr
+	term *Term
 }
 
 var fnInfos = map[*ssa.Function]*FnInfo{}
@@ -542,8 +550,14 @@ func (fi *FnInfo) load(u *ssa.UnOp) *Term {
 		return fi.place(a)
 	case *ssa.FieldAddr:
 		if baseAlloc(a) == nil && fi.storedF[fieldKey(a.X.Type(), a.Field)] {
+			// an earlier load of the same place with no possible write of the field in between
+			// denotes the same value
+			if prev := fi.sameVersionLoad(u, a); prev != nil {
+				return prev
+			}
 			t := fi.uniq(TVar, "load:"+fi.place(a).s, u)
 			t.Sub = []*Term{fi.place(a)} // the place whose current value this is (pattern cur(P))
+			fi.fieldLoads = append(fi.fieldLoads, fieldLoad{u, a, t})
 			return t
 		}
 		if ba := baseAlloc(a); ba != nil {
@@ -1157,4 +1171,241 @@ func (t *Term) freeToParams() *Term {
 	c.Sub = ns
 	c.s = c.render()
 	return &c
+}
+
+// sameVersionLoad: an already-built load of the same field place that dominates u, such that no
+// instruction that may write the field lies on a path between the two.
+func (fi *FnInfo) sameVersionLoad(u *ssa.UnOp, a *ssa.FieldAddr) *Term {
+	key := fieldKey(a.X.Type(), a.Field)
+	place := fi.place(a).s
+	if fi.allFieldLoads == nil {
+		fi.allFieldLoads = []fieldLoad{}
+		for _, b := range fi.Fn.Blocks {
+			for _, in := range b.Instrs {
+				if l, ok := in.(*ssa.UnOp); ok && l.Op == token.MUL {
+					if fa, ok := l.X.(*ssa.FieldAddr); ok && baseAlloc(fa) == nil {
+						fi.allFieldLoads = append(fi.allFieldLoads, fieldLoad{load: l, addr: fa})
+					}
+				}
+			}
+		}
+	}
+	for _, fl := range fi.allFieldLoads {
+		if fl.load == u || fl.addr.Field != a.Field || !instrDominates(fl.load, u) {
+			continue
+		}
+		if fi.place(fl.addr).s != place {
+			continue
+		}
+		if !fi.mayWriteBetween(fl.load, u, key) {
+			return fi.T(fl.load)
+		}
+	}
+	return nil
+}
+
+// mayWriteBetween: is there an instruction w that may write field key with from ->* w ->* to?
+func (fi *FnInfo) mayWriteBetween(from, to ssa.Instruction, key string) bool {
+	writes := func(in ssa.Instruction) bool {
+		switch x := in.(type) {
+		case *ssa.Store:
+			if fa, ok := x.Addr.(*ssa.FieldAddr); ok && baseAlloc(fa) == nil && fieldKey(fa.X.Type(), fa.Field) == key {
+				return true
+			}
+		case ssa.CallInstruction:
+			cc := x.Common()
+			if _, isB := cc.Value.(*ssa.Builtin); isB {
+				return false
+			}
+			callees := fi.p.CG().Callees(x)
+			if len(callees) == 0 {
+				if cc.StaticCallee() != nil {
+					// external code cannot name module fields except through reflection/encoding
+					return false
+				}
+				if cc.IsInvoke() {
+					// unresolved method call (type-parameter receiver): every module method of that name
+					callees = fi.p.methodsNamed(cc.Method.Name())
+				}
+				if len(callees) == 0 {
+					return true
+				}
+			}
+			for _, g := range callees {
+				if fi.p.fnStoresField(g, key) {
+					return true
+				}
+			}
+		}
+		return false
+	}
+	// same block, from before to
+	fb, tb := from.Block(), to.Block()
+	idx := func(in ssa.Instruction) int {
+		for i, x := range in.Block().Instrs {
+			if x == in {
+				return i
+			}
+		}
+		return -1
+	}
+	if fb == tb && idx(from) < idx(to) {
+		// straight-line segment, unless the block is in a loop (then the whole cycle matters too)
+		for i := idx(from) + 1; i < idx(to); i++ {
+			if writes(fb.Instrs[i]) {
+				return true
+			}
+		}
+		if !reachAvoiding2(fb, fb) {
+			return false
+		}
+	}
+	// blocks on some path from fb to tb
+	fwd := reachSet(fb, true)
+	bwd := reachSet(tb, false)
+	for _, b := range fi.Fn.Blocks {
+		on := (fwd[b] && bwd[b]) || b == fb || b == tb
+		if !on {
+			continue
+		}
+		for i, in := range b.Instrs {
+			if b == fb && !(fwd[fb] && bwd[fb] && reachAvoiding2(fb, fb)) && i <= idx(from) {
+				continue
+			}
+			if b == tb && !(fwd[tb] && bwd[tb] && reachAvoiding2(tb, tb)) && i >= idx(to) {
+				continue
+			}
+			if in == from || in == to {
+				continue
+			}
+			if writes(in) {
+				return true
+			}
+		}
+	}
+	return false
+}
+
+// reachAvoiding2: can block `to` be reached from a successor of `from` (i.e. by a non-empty path)?
+func reachAvoiding2(from, to *ssa.BasicBlock) bool {
+	seen := map[*ssa.BasicBlock]bool{}
+	var stack []*ssa.BasicBlock
+	for _, s := range from.Succs {
+		if !seen[s] {
+			seen[s] = true
+			stack = append(stack, s)
+		}
+	}
+	for len(stack) > 0 {
+		b := stack[len(stack)-1]
+		stack = stack[:len(stack)-1]
+		if b == to {
+			return true
+		}
+		for _, s := range b.Succs {
+			if !seen[s] {
+				seen[s] = true
+				stack = append(stack, s)
+			}
+		}
+	}
+	return false
+}
+
+func reachSet(b *ssa.BasicBlock, forward bool) map[*ssa.BasicBlock]bool {
+	seen := map[*ssa.BasicBlock]bool{}
+	stack := []*ssa.BasicBlock{}
+	next := func(x *ssa.BasicBlock) []*ssa.BasicBlock {
+		if forward {
+			return x.Succs
+		}
+		return x.Preds
+	}
+	for _, s := range next(b) {
+		if !seen[s] {
+			seen[s] = true
+			stack = append(stack, s)
+		}
+	}
+	for len(stack) > 0 {
+		x := stack[len(stack)-1]
+		stack = stack[:len(stack)-1]
+		for _, s := range next(x) {
+			if !seen[s] {
+				seen[s] = true
+				stack = append(stack, s)
+			}
+		}
+	}
+	return seen
+}
+
+var storesFieldCache map[*ssa.Function]map[string]bool
+
+// fnStoresField: does fn (transitively, through module callees) store to the struct field key?
+func (p *Prog) fnStoresField(fn *ssa.Function, key string) bool {
+	if storesFieldCache == nil {
+		storesFieldCache = map[*ssa.Function]map[string]bool{}
+		for _, f := range p.Funcs {
+			m := map[string]bool{}
+			for _, b := range f.Blocks {
+				for _, in := range b.Instrs {
+					if st, ok := in.(*ssa.Store); ok {
+						if fa, ok := st.Addr.(*ssa.FieldAddr); ok && baseAlloc(fa) == nil {
+							m[fieldKey(fa.X.Type(), fa.Field)] = true
+						}
+					}
+				}
+			}
+			storesFieldCache[f] = m
+		}
+		changed := true
+		for changed {
+			changed = false
+			for _, f := range p.Funcs {
+				for _, b := range f.Blocks {
+					for _, in := range b.Instrs {
+						ci, ok := in.(ssa.CallInstruction)
+						if !ok {
+							continue
+						}
+						for _, g := range p.CG().Callees(ci) {
+							for k := range storesFieldCache[g] {
+								if !storesFieldCache[f][k] {
+									storesFieldCache[f][k] = true
+									changed = true
+								}
+							}
+						}
+						// closures created here run in this function's dynamic extent or later: count them
+						if mc, ok := in.(*ssa.MakeClosure); ok {
+							if g, ok := mc.Fn.(*ssa.Function); ok {
+								for k := range storesFieldCache[g] {
+									if !storesFieldCache[f][k] {
+										storesFieldCache[f][k] = true
+										changed = true
+									}
+								}
+							}
+						}
+					}
+				}
+			}
+		}
+	}
+	return storesFieldCache[origin(fn)][key]
+}
+
+var methodsByName map[string][]*ssa.Function
+
+func (p *Prog) methodsNamed(name string) []*ssa.Function {
+	if methodsByName == nil {
+		methodsByName = map[string][]*ssa.Function{}
+		for _, f := range p.Funcs {
+			if f.Signature.Recv() != nil {
+				methodsByName[f.Name()] = append(methodsByName[f.Name()], f)
+			}
+		}
+	}
+	return methodsByName[name]
 }
